@@ -94,6 +94,19 @@ type drv struct {
 
 func (d *drv) addr(a int) string { return fmt.Sprintf("127.0.0.1:%d", d.ports[a-1]) }
 
+// cfgAddr: the address as written in the configuration; ids >= 10 are malformed address strings
+func (d *drv) cfgAddr(a int) string {
+	switch a {
+	case 11:
+		return fmt.Sprintf("localhost:%d", d.ports[0])
+	case 12:
+		return "127.0.0.1"
+	case 13:
+		return fmt.Sprintf(":%d", d.ports[1])
+	}
+	return d.addr(a)
+}
+
 func (d *drv) yaml(c vCfg) string {
 	var b strings.Builder
 	if len(c.Legacy) > 0 {
@@ -108,7 +121,7 @@ func (d *drv) yaml(c vCfg) string {
 		for _, s := range c.Svcs {
 			b.WriteString("  - listeners:\n")
 			for _, l := range s.Ls {
-				fmt.Fprintf(&b, "      - type: %s\n        address: \"%s\"\n", l[0].(string), d.addr(int(l[1].(float64))))
+				fmt.Fprintf(&b, "      - type: %s\n        address: \"%s\"\n", l[0].(string), d.cfgAddr(int(l[1].(float64))))
 			}
 			b.WriteString("    keys:\n")
 			for _, ki := range s.Ks {
